@@ -461,12 +461,20 @@ func roundtrip(v9 bool, tier string) mck.Space {
 		if self, err := os.Executable(); err == nil {
 			// ... nor the same machine shape: the saving process runs with another number of processors
 			// (GOMAXPROCS: a changed -cpu-cap, another host) than the loading one
-			for _, procs := range []string{"", "1", "64", "255"} {
+			for _, procs := range []string{"", "1", "64", "255", "cpu0"} {
 				po := filepath.Join(tmpDirGet(), "other.json")
 				os.Remove(po)
 				cmd := exec.Command(self, "-dumpcontent", tier, fmt.Sprint(idx), proto(v9), po)
 				where := "another process"
-				if procs != "" {
+				if procs == "cpu0" {
+					// ... or is confined to ONE processor (a smaller machine, a cpuset): runtime.NumCPU() is 1 there
+					ts, err := exec.LookPath("taskset")
+					if err != nil {
+						continue
+					}
+					cmd = exec.Command(ts, "-c", "0", self, "-dumpcontent", tier, fmt.Sprint(idx), proto(v9), po)
+					where = "another process confined to one processor (taskset -c 0)"
+				} else if procs != "" {
 					cmd.Env = append(os.Environ(), "GOMAXPROCS="+procs)
 					where = "another process running with GOMAXPROCS=" + procs
 				}
